@@ -25,11 +25,21 @@ def main():
     res = None
     try:
         build.install()
+        fuzz = os.environ.get("VERIF_FUZZ") is not None
+        if fuzz:
+            out = os.environ["VERIF_FUZZ_OUT"]
+            sys.path.insert(0, os.path.join(build.VERIF, ".deps"))
+            import atheris
+
+            with atheris.instrument_imports(include=["mwlib", "qs"], enable_loader_override=False):
+                mod = importlib.import_module("vf.props.%s" % prop.lower())
+                for name in getattr(mod, "FUZZ_IMPORTS", ()):
+                    importlib.import_module(name)
         mod = importlib.import_module("vf.props.%s" % prop.lower())
         ctx = Ctx(prop, tier, seed, shard, nshards, workdir,
                   known=findings.for_property(prop),
-                  announce_path=os.path.join(workdir, "current%02d" % shard))
-        if shard == 0 and hasattr(mod, "replay"):
+                  announce_path=None if fuzz else os.path.join(workdir, "current%02d" % shard))
+        if shard == 0 and hasattr(mod, "replay") and not fuzz:
             # regression corpus: witnesses of fixed findings and of seeded changes
             for path, case in findings.regress_cases(prop):
                 ctx.announce(case)
